@@ -33,6 +33,7 @@ PARTS = {
     "base": "B{% block b %}p{{ bg }}{% endblock %}{% block c required %}{% endblock %}E",
     "q": "{% assign qa = qg | plus: 1 %}{{ qa }}{% for j in ql %}{{ j }}{% endfor %}{% render 'p', v: qa %}",
     "r": "{% if rx %}{% include 'q' %}{% else %}{{ ry | downcase }}{% endif %}",
+    "rec": "{{ depth }}{% if depth > 1 %}{% assign d2 = depth | minus: 1 %}{% include 'rec', depth: d2 %}{% endif %}",
 }
 ENV = ShopifyEnvironment(loader=DictLoader(dict(PARTS)))
 
@@ -45,11 +46,20 @@ EXTRA = [
     "{{ a | map: i => i.k | join: ',' }}{{ a | where: (it, idx) => idx == x | size }}{{ i }}{{ it }}",
     "{## c ##}\n  {%- liquid\n  # c\n  assign w = x | plus: 1\n  echo w | minus: 1\n  if w\n    echo s | append: 'y'\n  endif\n-%}{{ w }}",
     "{% macro m, u, w: x %}{{ u }}{{ w }}{{ g1 }}{% endmacro %}{% call m, s, w: b %}{% with k: x %}{{ k }}{{ g2 }}{% endwith %}{{ k }}{{ u }}",
+    "{% include 'p', v: x %}{% include 'p', v: s %}{{ v }}|{% include 'p' with x as i %}{% include 'p' with s as i %}{{ i }}{{ pg }}",
+    "{% for v in a %}{{ v }}{% endfor %}{{ v }}{% with pg: 1 %}{{ pg }}{% endwith %}{{ pg }}{% render 'p', v: x %}{% render 'p', v: s %}{{ v }}{{ i }}{{ a | map: q => q | first }}{{ q }}",
+    "{% if b %}{% include 'rec', depth: x %}{% endif %}{{ depth }}",
 ]
 # The filters of a ternary's left-hand side are a recorded finding (known_findings.json): they get a program of their own
 KF_TERNARY = "{{ x | plus: 1 if b else s | upcase }}"
-CORPUS = [c.replace("{{ x | plus: 1 if x > 1 else 0", "{{ x if x > 1 else 0") for c in C12_CORPUS] + EXTRA + [KF_TERNARY]
-KF_TERNARY_INDEX = len(CORPUS) - 1
+# A partial is analysed once (the first time it is reached): recorded finding, own program
+KF_PARTIAL_ONCE = "{% include 'p', v: x %}{% include 'p' %}"
+CORPUS = [
+    c.replace("{{ x | plus: 1 if x > 1 else 0", "{{ x if x > 1 else 0").replace("{% include 'p' for a %}", "{% include 'p' for a as v %}")
+    for c in C12_CORPUS
+] + EXTRA + [KF_TERNARY, KF_PARTIAL_ONCE]
+KF_TERNARY_INDEX = len(CORPUS) - 2
+KF_PARTIAL_ONCE_INDEX = len(CORPUS) - 1
 TEMPLATES = [ENV.from_string(s, name=f"t{i}") for i, s in enumerate(CORPUS)]
 SOURCES = {f"t{i}": s for i, s in enumerate(CORPUS)}
 SOURCES.update(PARTS)
@@ -168,7 +178,7 @@ for _t in TEMPLATES:
     timeout=240,
     shard={"i": list(range(len(CORPUS)))},
     covers="on every path through each program (and the partials/parents it loads): variables resolved, filters applied and tags rendered are subsets of analyze().variables/.filters/.tags; every name that reaches the global namespace and is never bound by the template is in analyze().globals; analyze_async() returns the same maps; every reported span is exactly the variable path / filter name / tag",
-    bounds="28 programs (C12 corpus + partial/inheritance/comment/liquid/macro/lambda layouts), sync and async render; x int 0..4, b bool, s str over {a b} len <= 1, a list len <= 2 of ints",
+    bounds="33 programs (C12 corpus + partial/inheritance/comment/liquid/macro/lambda layouts), sync and async render; x int 0..4, b bool, s str over {a b} len <= 1, a list len <= 2 of ints",
     stubs=("Node.render/render_async wrapped to log rendered tag names; RenderContext subclass logging get()/filter(); dict subclass logging global lookups",),
     grid=lambda: [(i, x, b, a, s, m) for i in range(len(CORPUS)) for x in (0, 1, 3) for b in (False, True) for a in ([], [2, 1]) for s in ("", "a") for m in (False, True)],
 )
@@ -177,7 +187,8 @@ def d_sound(i: int, x: int, b: bool, a: List[int], s: str, is_async: bool) -> bo
     if an is None or not ANALYSES_ASYNC_EQUAL[i] or SPAN_ERRORS[i] is not None:
         return False
     t = TEMPLATES[i]
-    data = LogGlobals({"x": x, "b": b, "a": a, "s": s, "k": "k", "o": {"k": {"z": x}, "a b": s}, "h": [{"k": x}, {}], "rx": b, "ql": a, "qg": x})
+    data = LogGlobals({"x": x, "b": b, "a": a, "s": s, "k": "k", "o": {"k": {"z": x}, "a b": s}, "h": [{"k": x}, {}], "rx": b, "ql": a, "qg": x,
+                       "v": "gv", "i": "gi", "pg": "gpg", "q": "gq", "depth": 0, "u": "gu", "g1": 1, "g2": 2, "w": "gw"})
     LogGlobals.SEEN.clear()
     LogCtx.USED_VARS.clear()
     LogCtx.USED_FILTERS.clear()
@@ -196,44 +207,15 @@ def d_sound(i: int, x: int, b: bool, a: List[int], s: str, is_async: bool) -> bo
         return False
     if not set(TRACE) <= set(an.tags):
         return False
+    # a lookup that reached the global namespace fell through every local and block scope: it is a global use,
+    # whatever the same name is bound to elsewhere in the template
     bound = set(an.locals)
     for name in set(LogGlobals.SEEN):
         if name in ("translations",):
             continue
-        if name not in an.globals and name not in bound and name not in _BLOCK_BOUND[i]:
+        if name not in an.globals and name not in bound:
             return False
     return True
-
-
-def _block_bound(t) -> set:
-    """Names bound by block constructs, counters and macros anywhere in the template (never 'free' there)."""
-    out: set = set()
-
-    def walk(n):  # type: ignore[no-untyped-def]
-        out.update(str(v) for v in n.block_scope())
-        out.update(str(v) for v in n.template_scope())
-        p = n.partial_scope()
-        if p is not None:
-            out.update(str(v) for v in p.in_scope)
-        for e in n.expressions():
-            stack = [e]
-            while stack:
-                ex = stack.pop()
-                out.update(str(v) for v in ex.scope())
-                stack.extend(ex.children())
-        try:
-            kids = list(n.children(RenderContext(t), include_partials=True))
-        except LiquidError:
-            kids = []
-        for k in kids:
-            walk(k)
-
-    for n in t.nodes:
-        walk(n)
-    return out
-
-
-_BLOCK_BOUND = [_block_bound(t) for t in TEMPLATES]
 
 
 @cond(pre=["0 <= x <= 4"], twin=True, timeout=60, covers="reachability twin: the instrumentation records lookups")
